@@ -356,6 +356,36 @@ def search(rng, tier, broken, corr):
             break
         small_q = [q for q in sc.queries_for(src, rng, full=False)]
         consider(src, small_q, evaluate_real(src, small_q, rng, 0.3))
+    # the finders asked about EXPLICITLY given code (student_code= / root=parse_program(code)) while the submission
+    # is some other, non-empty program: they must walk the code they were given - the empty program, a
+    # comment-only one and `pass` included (no occurrence of anything)
+    explicit = ["", "\n", "# only a comment\n", "pass\n", "x = 1 + 2\nprint(x < 3 < 4)\n", "import math\nfor i in range(3):\n    print(i)\n"]
+    subs = [gen.program(max_stmts=4) for _ in range(3 if tier == "quick" else 20)] + ["while True:\n    print(1 + 1)\n"]
+    n_explicit = 0
+    for sub in subs:
+        for code in explicit:
+            if len(failures) >= 8:
+                break
+            for q in [("ast", "While"), ("ast", "Call"), ("ast", "BinOp"), ("ast", "Name"), ("ast", "Compare"),
+                      ("op", "+"), ("op", "<"), ("call", "print")]:
+                got = sc.real_find_explicit(q, sub, code)
+                n_explicit += 1
+                want = sc.oracle_nodes(ast.parse(code), q)
+                if want is None or got is None:
+                    continue
+                exp = sorted(sc.node_key(n) for n in want)
+                if isinstance(got, dict) or sorted(got) != exp:
+                    sig = {"fails": "finder", "query": q[0], "explicit_code": "empty" if not code.strip() else
+                           ("trivial" if len(code) < 20 else "program")}
+                    key = json.dumps(sig, sort_keys=True)
+                    if key not in seen_sigs:
+                        seen_sigs.add(key)
+                        failures.append(Failure(sig, "%s(%r) asked about explicitly given code %r (submission: another "
+                                                     "program) returned %r, a plain walk of that code finds %r"
+                                                % (q[0], q[1], code, got, exp),
+                                                {"src": sub, "explicit_code": code, "query": q_json(q)}))
+    info["evaluations"] += n_explicit
+    info["explicit_code_queries"] = n_explicit
     info["distinct_nontrivial"] = len(nt)
     info["samples"] = [{"src": s[:200], "query": q} for s, q in list(nt)[:3]]
     return failures, info
